@@ -92,7 +92,15 @@ def gen_case(rnd):
         # whole-table aggregates
         n = rnd.randint(1, 5)
         sel = [item(gen_aggr(rnd), "a%d" % i) for i in range(n)]
-        q = select(sel, table("t"), wh=gen_where(rnd))
+        # a LIMIT / OFFSET on the statement windows the ONE output row; the aggregates still see every row that
+        # passed WHERE (also one level down, in a derived table)
+        lim = off = None
+        if rnd.random() < 0.3:
+            lim = rnd.choice([1, 1, 2, 3])
+            off = rnd.choice([None, None, 0, 1])
+        q = select(sel, table("t"), wh=gen_where(rnd), limit=lim, offset=off, limit_spelling=rnd.choice([0, 1]))
+        if rnd.random() < 0.15:
+            q = select([["star"]], ["derived", q, "d"])
         return mk_case({"t": rows}, q, mode="seq", tag="whole-table")
     gcols = rnd.sample(["g0", "g1", "g2"], rnd.randint(1, 3))
     nested_key = rnd.random() < 0.15
@@ -116,7 +124,12 @@ def gen_case(rnd):
         gb.append(["o.k", ["o", "k"]])
         if rnd.random() < 0.5:
             sel.append(item(["col", ["o", "k"], {"style": 1}], "ok"))
-    q = select(sel, table("t"), wh=gen_where(rnd), gb=gb, hv=gen_having(rnd))
+    lim = off = None
+    if rnd.random() < 0.2:
+        lim = rnd.choice([1, 2, 3, 5])
+        off = rnd.choice([None, 0, 1])
+    q = select(sel, table("t"), wh=gen_where(rnd), gb=gb, hv=gen_having(rnd), limit=lim, offset=off,
+               limit_spelling=rnd.choice([0, 1]))
     return mk_case({"t": rows}, q, mode="seq", tag="group-by")
 
 
@@ -126,7 +139,7 @@ def nontrivial(c, g, l):
     rows = dec_val(g["v"])
     if c["tag"] == "group-by":
         return len(rows) >= 2
-    return c["q"][5] != TRUE and len(rows) == 1 and any(v not in (None, 0.0) for v in rows[0].values())
+    return c["q"][0] == "select" and c["q"][5] != TRUE and len(rows) == 1 and any(v not in (None, 0.0) for v in rows[0].values())
 
 
 def explore(chk, rnd, tier):
